@@ -259,8 +259,13 @@ func Seeded(w io.Writer, seed int64, kind string, n int) error {
 						p.Lines = append(p.Lines, "2 PLAC "+pl)
 					}
 				}
-				if p.Kind == "burialonly" { // the extra events must not make anybody dead or alive
-					continue
+			}
+			if rng.Intn(3) == 0 && len(c.Doc.People) >= 2 {
+				// ties: two people with one name and the same undated events at one place, and two spellings of a place
+				a, b := &c.Doc.People[0], &c.Doc.People[1]
+				b.Given, b.Sur = a.Given, a.Sur
+				for _, p := range []*Person{a, b} {
+					p.Lines = append(p.Lines, "1 EVEN", "2 PLAC Xqx01", "1 EVEN", "2 PLAC Xqx01", "1 CENS", "2 PLAC XQX01", "1 CENS", "2 PLAC xqx01")
 				}
 			}
 			if rng.Intn(4) > 0 {
